@@ -156,16 +156,25 @@ func (b *exampleBuilder) buildExampleForMixedValueNode(node *internalSchema.Mixe
 		return nil, errors.ErrLoader
 	}
 
-	typeName := tt[0]
-	if !bytes.Bytes(typeName).IsUserTypeName() {
-		return node.Value(), nil
-	}
+	// Take the first alternative which is not cut off by the recursion guard:
+	// for `@list | @leaf` the example of the innermost level is the leaf, not a
+	// hole where a required property should be.
+	for _, typeName := range tt {
+		if !bytes.Bytes(typeName).IsUserTypeName() {
+			return node.Value(), nil
+		}
 
-	if cnt := b.processedTypes[typeName]; cnt > 1 {
-		// Do not process already processed type more than twice.
-		return nil, nil
-	}
+		if cnt := b.processedTypes[typeName]; cnt > 1 {
+			// Do not process already processed type more than twice.
+			continue
+		}
 
+		return b.buildExampleForUserType(typeName)
+	}
+	return nil, nil
+}
+
+func (b *exampleBuilder) buildExampleForUserType(typeName string) ([]byte, error) {
 	b.processedTypes[typeName]++
 	defer func() {
 		b.processedTypes[typeName]--
